@@ -28,6 +28,9 @@ pub struct DemoCfg {
     pub io: [u16; 4],
     /// largest piece one read returns (0 = unlimited)
     pub max_read: u16,
+    /// raw level: write through the single entry point `Writer::write_chunk(RawChunk)` instead of the four methods
+    #[serde(default)]
+    pub via_chunk: bool,
 }
 
 #[derive(Clone, Debug, Serialize, Deserialize, PartialEq)]
@@ -213,7 +216,11 @@ impl DemoEngine {
                         if tick > i32::MAX as i64 {
                             break;
                         }
-                        w.write_tick(keyframe, tick as i32).map_err(|e| format!("write_tick: {}", e))?;
+                        if cfg.via_chunk {
+                            w.write_chunk(RawChunk::Tick { tick: tick as i32, keyframe }).map_err(|e| format!("write_chunk(Tick): {}", e))?;
+                        } else {
+                            w.write_tick(keyframe, tick as i32).map_err(|e| format!("write_tick: {}", e))?;
+                        }
                         model.push(MChunk::Tick(tick as i32, keyframe));
                         have_tick = true;
                     }
@@ -222,7 +229,13 @@ impl DemoEngine {
                             continue;
                         }
                         let d = data(cfg.seed, raw_len(len, fill), fill, salt);
-                        w.write_snapshot(&d).map_err(|e| format!("write_snapshot: {}", e))?;
+                        if cfg.via_chunk && d.len() <= 65536 {
+                            let mut av: Box<arrayvec::ArrayVec<[u8; 65536]>> = Box::new(arrayvec::ArrayVec::new());
+                            av.extend(d.iter().cloned());
+                            w.write_chunk(RawChunk::Snapshot(&av)).map_err(|e| format!("write_chunk(Snapshot): {}", e))?;
+                        } else {
+                            w.write_snapshot(&d).map_err(|e| format!("write_snapshot: {}", e))?;
+                        }
                         model.push(MChunk::Snapshot(d));
                     }
                     DemoOp::Delta { len, fill, salt } => {
@@ -230,7 +243,13 @@ impl DemoEngine {
                             continue;
                         }
                         let d = data(cfg.seed, raw_len(len, fill), fill, salt);
-                        w.write_snapshot_delta(&d).map_err(|e| format!("write_snapshot_delta: {}", e))?;
+                        if cfg.via_chunk && d.len() <= 65536 {
+                            let mut av: Box<arrayvec::ArrayVec<[u8; 65536]>> = Box::new(arrayvec::ArrayVec::new());
+                            av.extend(d.iter().cloned());
+                            w.write_chunk(RawChunk::SnapshotDelta(&av)).map_err(|e| format!("write_chunk(SnapshotDelta): {}", e))?;
+                        } else {
+                            w.write_snapshot_delta(&d).map_err(|e| format!("write_snapshot_delta: {}", e))?;
+                        }
                         model.push(MChunk::Delta(d));
                     }
                     DemoOp::Message { len, fill, salt } => {
@@ -239,7 +258,11 @@ impl DemoEngine {
                         }
                         // arbitrary content up to 12 KiB; compressible content up to beyond the 64 KiB the reader can return
                         let d = data(cfg.seed, if fill % 3 == 0 { (len as usize).min(70_000) } else { raw_len(len, fill).min(12_000) }, fill, salt);
-                        w.write_message(&d).map_err(|e| format!("write_message: {}", e))?;
+                        if cfg.via_chunk {
+                            w.write_chunk(RawChunk::Message(&d)).map_err(|e| format!("write_chunk(Message): {}", e))?;
+                        } else {
+                            w.write_message(&d).map_err(|e| format!("write_message: {}", e))?;
+                        }
                         let mut padded = d.clone();
                         while padded.len() % 4 != 0 {
                             padded.push(0);
@@ -526,6 +549,7 @@ impl Engine for DemoEngine {
             first_tick: *c.pick(&[0i32, 0, 1, 1000, 2_000_000_000, -1, -1000, i32::MIN, i32::MIN + 7]),
             io,
             max_read,
+            via_chunk: c.chance(1, 3),
         };
         let n = match c.below(8) {
             0..=3 => c.range(2, 15),
